@@ -338,7 +338,7 @@ static void _parent_remove_child(struct iwpool *parent, struct iwpool *child) {
       if (p) {
         p->next = c->next;
       } else {
-        parent->children = 0;
+        parent->children = c->next;
       }
       break;
     }
@@ -352,7 +352,8 @@ bool iwpool_destroy(struct iwpool *pool) {
   if (pool->parent) {
     _parent_remove_child(pool->parent, pool);
   }
-  for (struct iwpool *c = pool->children; c; c = c->next) {
+  for (struct iwpool *c = pool->children, *cn; c; c = cn) {
+    cn = c->next;
     c->parent = 0;
     iwpool_destroy(c);
   }
